@@ -3,6 +3,7 @@
 package main
 
 import (
+	"encoding/json"
 	"flag"
 	"fmt"
 	"os"
@@ -104,6 +105,18 @@ func main() {
 			os.Exit(2)
 		}
 		os.Exit(core.ReplayFile(e, os.Args[2]))
+	case "twin":
+		// reference results of a C17 plan in this (fresh) process: vsimeng twin <plan.json>
+		b, err := os.ReadFile(os.Args[2])
+		if err != nil {
+			os.Exit(2)
+		}
+		p, err := (engines.C17{}).Decode(b)
+		if err != nil {
+			os.Exit(2)
+		}
+		out, _ := json.Marshal(engines.TwinOnly(p.(*engines.C17Plan)))
+		os.Stdout.Write(out)
 	case "plan":
 		// print the plan of run i (debugging aid): vsimeng plan <prop> <tier> <seed> <i>
 		e := engineFor(os.Args[2])
